@@ -923,7 +923,7 @@ def c20(d, run):
                 "the policy worker applies them to the small estimator), removes, TTL expiry with ticks and over-capacity inserts; a panic "
                 "in any actor is recorded as an event the specification does not have; rejected parameter combinations must return the "
                 "specified error kind")
-    run.assumptions = BASE_ASSUME + ["negative max_cost is covered by Finalize events and MC_Config only (nothing is ever admitted)"]
+    run.assumptions = BASE_ASSUME + ["one instance in five is built with max_cost = -1 (accepted by the builder: nothing is ever admitted)"]
 
 
 def _known(d, run, tag):
